@@ -131,6 +131,11 @@ func Generate(genseed uint64, stream string, thorough bool) *Case {
 		}
 		if k := g.Nodes[rootNow].Kind; (k == dag.KIndex || k == dag.KDockerL) && r.Chance(1, 3) {
 			c.Platform = common.Pick(r, arches)
+			if r.Chance(1, 5) {
+				c.PlatVar = "v8" // no generated entry has a variant: nothing matches
+			} else if r.Chance(1, 6) {
+				c.PlatFeat = "sse4"
+			}
 		}
 	}
 
@@ -191,10 +196,11 @@ func Generate(genseed uint64, stream string, thorough bool) *Case {
 		c.MapRoot, c.Platform = -1, ""
 		set = g.RandomClosedSubset(r, common.Pick(r, []int{0, 0, 10}))
 		set[t] = true
-		for _, tw := range twins { // a pre-populated manifest brings its twin along (same key) and vice versa
-			if set[g.Nodes[tw].TwinOf] {
-				set[tw] = true
-			}
+		// every twin blob of the graph is pre-populated (they are leaves, the set stays link-closed):
+		// a twin that is only reachable would be pushed during the copy and trigger the same defect
+		// by a race (manifest probed after its twin blob was pushed), outside the signature's mechanism
+		for _, tw := range twins {
+			set[tw] = true
 		}
 		c.Dst = common.Pick(r, []string{"mem", "oci", "oci", "ocire", "remote"})
 	case "mount":
